@@ -13,6 +13,42 @@ PSC = "berty.tech/go-orbit-db/pubsub/pubsubcoreapi"
 OOO = "berty.tech/go-orbit-db/pubsub/oneonone"
 
 CHECKS = {
+    "C10": {
+        "groups": [{
+            "pkg": BS, "funcs": ["VerifC10Mixed"],
+            "covers": {"VerifC10Mixed": ["non-writer", "foreign-db", "wrong-hash", "bad-ancestor", "bad-signature", "re-announced"]},
+        }],
+        "assumptions": [
+            "replica with an explicit write list; a two-head announcement mixing a valid head with a rejected one (non-writer author / other database / wrong claimed address / writer's entry on top of a non-writer's ancestor / writer's id with a signature that does not verify) at either position, through the real Sync -> replicator -> fetcher -> main loop -> replicationLoadComplete -> Join",
+            "then an honest re-announcement of the valid head and a newer valid head; quiescence decided from the scheduler state (all threads blocked), not from a timeout",
+        ],
+        "outside": ["more than two heads per announcement", "fetch-completion orders other than run-to-block FIFO", "the forged-author class is C03's (known finding)"],
+    },
+    "C11": {
+        "groups": [{
+            "pkg": BS, "funcs": ["VerifC11Abort"],
+            "params": {"quick": {"N": 3}, "thorough": {"N": 4}},
+            "covers": {"VerifC11Abort": ["aborted", "control", "retried", "partial-ancestry"]},
+        }],
+        "assumptions": [
+            "remote log = chain of N entries or two branches; replication concurrency 1 or 2; request 1 is cancelled before it starts, at the k-th block fetch (k=1..N, i.e. while another worker waits for a slot or in the middle of a fetch) or after the last, and/or one chosen fetch fails; request 2 for the same heads runs with a live context and all blocks available",
+            "quiescence decided from the scheduler state",
+        ],
+        "outside": ["timeouts of the real bitswap", "cancellation points between visible operations other than block fetches", "N beyond the bound"],
+    },
+    "C09": {
+        "groups": [{
+            "pkg": BS, "funcs": ["VerifC09Isolation"],
+            "params": {"quick": {"STEPS": 3}, "thorough": {"STEPS": 4}},
+            "covers": {"VerifC09Isolation": ["write-on-a", "replicate-on-a", "load-on-a"]},
+        }],
+        "assumptions": [
+            "two databases opened by one process: two real BaseStores initialised by InitBaseStore on ONE shared event bus, one pubsub (topics per address, each with a peer so that publications are not suppressed) and one direct channel; replication enabled",
+            "a sequence of STEPS actions on database A (local write with symbolic payload; replication of a head written by a remote process; load), run to quiescence after each",
+            "oracle: nothing published on B's topic or sent on the direct channel; B's log, progress and maximum unchanged; every store event observed on the bus carries A's address",
+        ],
+        "outside": ["more than two databases / different store types (the listeners are in BaseStore, common to all types)", "schedules other than run-to-block FIFO", "the instance-level direct-channel handler of baseorbitdb (routes by the address in the message)"],
+    },
     "C05": {
         "groups": [{
             "pkg": BS, "funcs": ["VerifC05Crash"],
